@@ -28,6 +28,14 @@ def worker_init(ctx):
     ctx['zfpy_proxy'] = monitors.install_native_contracts(enforce=True)
 
 
+def _clear(r):
+    """drop the loader's class-level caches between observed calls (best effort: internal API)"""
+    try:
+        r.loader.clear_cache()
+    except Exception:  # noqa
+        pass
+
+
 def cases(tier, seed):
     rng = random.Random('C17/%s' % seed)
     out = []
@@ -172,7 +180,7 @@ def run_case(case, ctx):
     def finish(h, r):
         try:
             if r is not None:
-                r.loader.clear_cache()
+                _clear(r)
             if backend == 'local':
                 h.close()
         except Exception:  # noqa
